@@ -215,9 +215,88 @@ pub fn install_hook() {
         };
         LAST_PANIC.with(|p| *p.borrow_mut() = msg);
     }));
+    install_watchdog();
 }
 pub fn last_panic() -> String {
     LAST_PANIC.with(|p| p.borrow().clone())
+}
+
+// ---------------------------------------------------------------------------------------------
+// watchdog: a call into the library that does not return is a result too ("no result").  Every recorded call bumps a
+// progress counter; a watcher thread that sees no progress for HANG_SECS seconds while a call is in progress writes
+// the call to the breadcrumb file (VERIF_CRUMB, with "hang": true) and ends the process with exit code 97, which the
+// orchestrator reports as a violation naming that call.
+
+static SKIP_FORMS: std::sync::OnceLock<Option<String>> = std::sync::OnceLock::new();
+pub const HANG_SECS: u64 = 90;
+pub const HANG_EXIT: i32 = 97;
+static PROGRESS: std::sync::atomic::AtomicU64 = std::sync::atomic::AtomicU64::new(0);
+static IN_CALL: std::sync::atomic::AtomicBool = std::sync::atomic::AtomicBool::new(false);
+static CUR_CALL: std::sync::Mutex<Option<(String, String, Vec<Arg>, String)>> = std::sync::Mutex::new(None); // (sem, op, args, form)
+
+fn watch_family(sem: &str, op: &str, args: &[Arg]) {
+    if let Ok(mut c) = CUR_CALL.lock() {
+        *c = Some((sem.to_string(), op.to_string(), args.to_vec(), String::new()));
+    }
+}
+fn watch_enter(form: &str) {
+    if let Ok(mut c) = CUR_CALL.lock() {
+        if let Some(x) = c.as_mut() {
+            x.3.clear();
+            x.3.push_str(form);
+        }
+    }
+    PROGRESS.fetch_add(1, std::sync::atomic::Ordering::SeqCst);
+    IN_CALL.store(true, std::sync::atomic::Ordering::SeqCst);
+}
+fn watch_leave() {
+    IN_CALL.store(false, std::sync::atomic::Ordering::SeqCst);
+    PROGRESS.fetch_add(1, std::sync::atomic::Ordering::SeqCst);
+}
+/// a call made outside `Rec` (the machine replayer): `desc` names it
+pub fn watched<T, F: FnOnce() -> T>(sem: &str, op: &str, desc: &str, f: F) -> T {
+    watch_family(sem, op, &[Arg::Str(desc.to_string())]);
+    watch_enter("step");
+    let r = f();
+    watch_leave();
+    r
+}
+pub fn install_watchdog() {
+    use std::sync::atomic::Ordering;
+    std::thread::spawn(|| {
+        let mut last = PROGRESS.load(Ordering::SeqCst);
+        let mut stalled = 0u64;
+        loop {
+            std::thread::sleep(std::time::Duration::from_secs(2));
+            let now = PROGRESS.load(Ordering::SeqCst);
+            if now != last || !IN_CALL.load(Ordering::SeqCst) {
+                last = now;
+                stalled = 0;
+                continue;
+            }
+            stalled += 2;
+            if stalled >= HANG_SECS {
+                let mut l = String::new();
+                if let Ok(c) = CUR_CALL.lock() {
+                    if let Some((sem, op, args, form)) = c.as_ref() {
+                        let _ = write!(l, "{{\"p\":\"{}\",\"op\":\"{}\",\"form\":\"{}\",\"mode\":\"{}\",\"hang\":true,\"a\":[", sem, op, form, MODE);
+                        for (i, a) in args.iter().enumerate() {
+                            if i > 0 {
+                                l.push(',');
+                            }
+                            a.json(&mut l);
+                        }
+                        l.push_str("]}\n");
+                    }
+                }
+                if let Ok(path) = std::env::var("VERIF_CRUMB") {
+                    let _ = std::fs::write(path, &l);
+                }
+                eprintln!("HANG: no result within {} s: {}", HANG_SECS, l.trim());
+                std::process::exit(HANG_EXIT);
+            }
+        }
+    });
 }
 
 /// run a call; a panic in the code under test is data
@@ -401,11 +480,21 @@ impl Rec {
     }
     /// start a family
     pub fn fam(&mut self, op: &'static str, args: Vec<Arg>) {
+        watch_family(self.sem, op, &args);
         self.evs.push(RawEv { sem: self.sem, op, args, forms: Vec::new() });
     }
     /// add one form's outcome to the current family
     pub fn form<F: FnOnce() -> Out>(&mut self, form: &'static str, f: F) {
+        // after a hang the orchestrator records again without the form that hung (VERIF_SKIP = "op/form,op/form")
+        if let Some(skip) = SKIP_FORMS.get_or_init(|| std::env::var("VERIF_SKIP").ok()) {
+            let e = self.evs.last().unwrap();
+            if skip.split(',').any(|x| x.split_once('/').map_or(false, |(o, f)| o == e.op && f == form)) {
+                return;
+            }
+        }
+        watch_enter(form);
         let o = catch(f);
+        watch_leave();
         let pm = if o == Out::Panic { last_panic() } else { String::new() };
         self.evs.last_mut().unwrap().forms.push((form, o, pm));
     }
